@@ -83,6 +83,7 @@ pub open spec fn node_stored(c: Seq<u8>, at: int, isleaf: u8, count: int, big: b
 }
 
 //@extract fn bigtools/src/bbi/bbiread.rs cir_tree_leaf_items
+//@rule R16
 //@sub /<R: SeekableRead>/ => ""
 //@sub /file: &mut R,/ => file: &mut VRead,
 //@sub /io::Result</ => Result<
@@ -106,6 +107,7 @@ pub open spec fn node_stored(c: Seq<u8>, at: int, isleaf: u8, count: int, big: b
 //@end
 
 //@extract fn bigtools/src/bbi/bbiread.rs cir_tree_non_leaf_items
+//@rule R16
 //@sub /<R: SeekableRead>/ => ""
 //@sub /file: &mut R,/ => file: &mut VRead,
 //@sub /io::Result</ => Result<
@@ -129,6 +131,7 @@ pub open spec fn node_stored(c: Seq<u8>, at: int, isleaf: u8, count: int, big: b
 //@end
 
 //@extract fn bigtools/src/bbi/bbiread.rs read_node
+//@rule R16
 //@rule R6
 //@rule R8
 //@sub /<R: SeekableRead>/ => ""
